@@ -113,7 +113,7 @@ PENDING = {}
 E2_EXTRA = (" Small families are additionally run (a) after each of 12 primer calls made on the same thread (two-call histories across graphs: "
             "thread-local and pooled state), (b) built through 7 construction routes (edges first under Create then nodes re-added, reverse().reverse() / "
             "get_subgraph(all), new_from_nodes_and_edges, shared Arc objects, KeepLast/KeepFirst+Create+Drop specs), (c) as query -> mutate in place -> query "
-            "histories with 6 mutations on the same Graph object, and where the oracle is scale-free (d) with exact power-of-two weights around 2^-60 and 2^60.")
+            "histories with 6 mutations on the same Graph object, and where the oracle is scale-free (d) with exact power-of-two weights around 2^-60 and 2^60; path-based checks also use node-keyed weight schemes (weight = function of the source / target node) on all 4-node digraphs.")
 E1_EXTRA = " One further stage repeats the exploration with equal edge specifications being one shared Arc<Edge> object (alphabet suffix @alias); batch calls are applied from every shallow state and the object each batch call leaves behind (also after a failing element) gets the state oracle."
 for pid in ["C04", "C05", "C06", "C08", "C10", "C11", "C12", "C13", "C18", "C20"]:
     CHECKS[pid]["text"] += E2_EXTRA
